@@ -146,6 +146,28 @@ def must_reject():
     return out
 
 
+def must_reject_sizes():
+    """size keywords that cannot match the tensors, chosen so that a wrap-around in a fixed-width integer WOULD make them match (2**32 + k, 2**64 + k, -2**32 + k): certainly ill-formed"""
+    import einx
+    out = []
+    x6, x23 = np.arange(6.0), np.arange(6.0).reshape(2, 3)
+    cases = []
+    for big in (2 ** 32, 2 ** 64, -(2 ** 32), 2 ** 31):
+        cases += [("id", "(a b) -> a b", [x6], {"a": big + 3}), ("sum", "a [b]", [x23], {"b": big + 3}), ("id", "a b -> a b c", [x23], {"a": big + 2, "c": 2}),
+                  ("id", "(a b) -> a b", [x6], {"a": np.int64(3) if False else big + 2, "b": 3})]
+    for op, d, ts, kw in cases:
+        r = classify(lambda: getattr(einx, op)(d, *ts, **kw))
+        if r[0] == "ok":
+            r = ("accepted", "returned a value", "-", f"a size keyword that cannot match the tensor shapes ({kw}) was accepted (fixed-width wrap-around?)")
+        out.append((r, {"op": op, "description": d, "shapes": [list(t.shape) for t in ts], "kwargs": {k: str(v) for k, v in kw.items()}, "edit": "must-reject sizes", "seed_call": d, "backend": None}))
+    for fn, d, ts, kw in (("solve_axes", "(a b)", [x6], {"a": 2 ** 32 + 3}), ("solve_shapes", "(a b)", [x6], {"a": 2 ** 32 + 2})):
+        r = classify(lambda: getattr(einx, fn)(d, *ts, **kw))
+        if r[0] == "ok":
+            r = ("accepted", "returned a value", "-", f"einx.{fn} accepted the impossible size keyword {kw}")
+        out.append((r, {"op": fn, "description": d, "shapes": [[6]], "kwargs": {k: str(v) for k, v in kw.items()}, "edit": "must-reject sizes", "seed_call": d, "backend": None}))
+    return out
+
+
 def run(tier, seed):
     chk = Check("C03", tier, seed, "other")
     from ..kernels import c12_lexer, c03_indicator
@@ -157,9 +179,12 @@ def run(tier, seed):
     chk.add_rule("C03.S.no_backend_code_before_graph", ok, sites, failing)
     ok, sites, failing = frame.rule_dispatch()
     chk.add_rule("C03.S.dispatch_complete", ok, sites, failing)
+    from .C02 import rule_exact
+    ok, sites, failing = rule_exact()
+    chk.add_rule("C03.S.sizes_not_narrowed", ok, sites, failing, detail="a size that is narrowed to a fixed-width integer can turn an ill-formed call into a well-formed one (same rule as C02.S.exact)")
     n = 24 if tier == "quick" else 600
     res = [x for r in harness.pmap(_work, [(seed, i) for i in range(n)]) for x in r]
-    res += must_reject()
+    res += must_reject() + must_reject_sizes()
     cnt = {}
     fails = []
     for r, d in res:
